@@ -338,7 +338,7 @@ class Prov:
         path = (c.get("resolved") or c["path"]) if c else "?"
         if name == "from_residual":
             return {(("residual",), ())}
-        return {(("call", path, fn.def_path, n["id"]), ())}
+        return {(("call", path, fn.def_path, n["id"], ctx), ())}
 
     def _closure_result(self, fn, e, ctx, stack):
         cl = hir.peel(e)
@@ -358,6 +358,29 @@ class Prov:
         return res
 
     # ---- interprocedural parameter resolution -----------------------------------------------
+    def origins_upto(self, top, g, e, depth=0):
+        """origins of expression e of function g, with g's parameters replaced by what the functions between
+        `top` and g (top together with the crate helpers it calls) pass for them - i.e. seen from top"""
+        os_ = self.origins(g, e)
+        if g is top or depth > 3:
+            return os_
+        out = set()
+        fl = self.prog.flat(top, 3)
+        for r, p in os_:
+            if r[0] == "param" and r[1] == g.def_path:
+                hit = False
+                for h in fl:
+                    for c in hir.calls_in(h.body):
+                        if self.prog.resolve_local(c) is g and len(hir.call_args(c)) > r[2]:
+                            hit = True
+                            for r2, p2 in self.origins_upto(top, h, hir.call_args(c)[r[2]], depth + 1):
+                                out.add((r2, tuple(p2) + tuple(p)))
+                if not hit:
+                    out.add((r, p))
+            else:
+                out.add((r, p))
+        return out
+
     def resolve_params(self, origins, stack=(), depth=0):
         """Replace ('param', fn, i) roots by the origins of the argument at every call site of fn
         (only when fn has resolved callers inside the crate).  Cycles are cut; shared sub-results are
